@@ -140,6 +140,11 @@ def main(argv=None):
         inconclusive.append(f"{len(spurious)} model(s) did not replay on the real code (first: {s0['label']} {json.dumps(s0['replay'], default=str)[:300]})")
     if tot["second_solver_sat"]:
         inconclusive.append(f"second solver (cvc5) found a model for {tot['second_solver_sat']} obligation queries that z3 reported unsat")
+    for n_, (job_, x_) in enumerate(xfails[:5]):
+        d_ = os.path.join(VERIF, "replays", pid)
+        os.makedirs(d_, exist_ok=True)
+        with open(os.path.join(d_, f"xval_mismatch_{n_}.json"), "w") as f_:
+            json.dump(dict(job=job_, mismatch=x_), f_, indent=1, default=str)
     if xfails:
         inconclusive.append(f"{len(xfails)} path-model cross-validation mismatch(es) between the encoding and the real code: {json.dumps(xfails[0][1], default=str)[:500]}")
     if exc_paths and not exc_is_violation:
